@@ -276,7 +276,7 @@ type snapshot struct {
 	tipsEntries                               int
 	dispute, bridge, tbr, feecoll             *big.Int
 	bonded, bondedLedger, notBonded, nbLedger *big.Int
-	sharesPos, tokensNonneg                   bool
+	sharesPos, tokensNonneg, creditsNonneg    bool
 }
 
 func (w *World) modBal(name string) *big.Int {
@@ -303,7 +303,11 @@ func (w *World) snap() snapshot {
 	})
 	sn.tips = w.modBal(reportertypes.TipsEscrowPool)
 	sn.tipsFloor, sn.tipsScaled = new(big.Int), new(big.Int)
+	sn.creditsNonneg = true
 	_ = s.Reporterkeeper.SelectorTips.Walk(w.ctx, nil, func(_ []byte, d math.LegacyDec) (bool, error) {
+		if d.IsNegative() {
+			sn.creditsNonneg = false
+		}
 		sn.tipsFloor.Add(sn.tipsFloor, d.TruncateInt().BigInt())
 		sn.tipsScaled.Add(sn.tipsScaled, d.BigInt())
 		sn.tipsEntries++
@@ -344,10 +348,10 @@ func (w *World) snap() snapshot {
 }
 
 func (sn snapshot) coq() string {
-	return fmt.Sprintf("(Snap %s %s %s %s %s %s %s %d %s %s %s %s %s %s %s %s %s %s)",
+	return fmt.Sprintf("(Snap %s %s %s %s %s %s %s %d %s %s %s %s %s %s %s %s %s %s %s)",
 		cz(sn.supply), cz(sn.balsum), cz(sn.oracle), cz(sn.oracleOwed), cz(sn.tips), cz(sn.tipsFloor), cz(sn.tipsScaled), sn.tipsEntries,
 		cz(sn.dispute), cz(sn.bridge), cz(sn.tbr), cz(sn.feecoll), cz(sn.bonded), cz(sn.bondedLedger), cz(sn.notBonded), cz(sn.nbLedger),
-		cbool(sn.sharesPos), cbool(sn.tokensNonneg))
+		cbool(sn.sharesPos), cbool(sn.tokensNonneg), cbool(sn.creditsNonneg))
 }
 
 // holdings of one account (C19): liquid, delegated (whole loya), tip credit (10^-18), selected reporter id
